@@ -63,11 +63,25 @@ def oracle_c05(cases, impl, model):
         if i.end == "done":
             if got != ref:
                 pos = next((j for j in range(min(len(got), len(ref))) if got[j] != ref[j]), min(len(got), len(ref)))
-                fails.append({"case_index": k, "what": "depth-first answers differ from the reference order at position %d" % pos,
-                              "reference": show_ref(ref)})
+                f = {"case_index": k, "what": "depth-first answers differ from the reference order at position %d" % pos,
+                     "reference": show_ref(ref)}
+                # same answers, only their order differs, the engine model predicts exactly this sequence (answers and
+                # steps), and the answers differ in structure (lists/compounds vs none): the known reification effect
+                f["order_only"] = bag_of(got) == bag_of(ref)
+                f["model_agrees"] = (not model[k].error) and seq_of(model[k]) == got and [a[3] for a in model[k].answers] == [a[3] for a in i.answers]
+                shapes = {("(" in t or "{" in t) for a, _ in got for t in a}
+                f["mixed_structure"] = len(shapes) > 1
+                fails.append(f)
         elif got != ref[:len(got)]:
             fails.append({"case_index": k, "what": "delivered answers are not a prefix of the reference order", "reference": show_ref(ref)})
     return fails
+
+
+def known_c05(case, failure, known_ids):
+    if ("dfs_order_after_reification" in known_ids and failure.get("order_only") and failure.get("model_agrees")
+            and failure.get("mixed_structure")):
+        return "dfs_order_after_reification"
+    return None
 
 
 def run_c05(tier, seed, replay=None):
@@ -98,7 +112,9 @@ def run_c05(tier, seed, replay=None):
             ["dfs", ["match", a, ["arm", ["pats", ["ilist", "h", "_"]], g1, g2]]],
         ])
         cases.append(mk_case([pairs], ["q", "r"], [shape]))
-    return pcheck.run_check("C05", tier, seed, cases, "exact", oracle_c05, cone=CONE, replay=replay,
+    # the known finding's witness, so that it is reported on every run while it exists
+    cases.append(mk_case([], ["q"], [["dfs", ["cond", ["eq", "q", ["list", 3]], "true"]]]))
+    return pcheck.run_check("C05", tier, seed, cases, "exact", oracle_c05, cone=CONE, replay=replay, known_classifier=known_c05,
         rule="random programs over eq/neq/conj/fresh/cond/member/append/closure wrapped in dfs{}, plus conjunctions of multi-answer goals; "
              "compared position by position with the Python list-monad reference (gen/refsem.py) and step-exactly with the model; "
              "non-trivial = at least one answer",
